@@ -21,7 +21,7 @@ add("C01", "TestC01", "exploration",
     RAPID, "DESIGN.md §4 C01")
 
 add("C02", "TestC02", "exploration",
-    dict(cases=40000, shards=8), dict(cases=150000, shards=16, timeout_s=3000),
+    dict(cases=40000, shards=8, extra=[dict(test="TestC02Exhaustive", shards=8)]), dict(cases=150000, shards=16, timeout_s=3000, extra=[dict(test="TestC02Exhaustive", shards=16, timeout_s=3000)]),
     "cases as C01 with values forced to contain runs of equal neighbours (geometric run lengths, pair duplication, constant, A/B/A alphabets); non-trivial = at least one de-duplicated key shares a longer prefix with the NEXT retained key than with its own retained predecessor (its bits lead into the wrong neighbour's sub-trie)",
     "Generated-input search: RangeGet on every input key (retained or dropped) must return the value supplied for it, in every option combination, fresh and reloaded.",
     "Trusted: reference model (cover index computed from independently encoded values).",
@@ -37,20 +37,20 @@ add("C03", "TestC03", "exploration",
     RAPID + " + exhaustive small-universe enumeration (+ native go fuzzing in thorough)", "DESIGN.md §4 C03")
 
 add("C09", "TestC09", "exploration",
-    dict(cases=40000, shards=8), dict(cases=150000, shards=16, timeout_s=3000),
+    dict(cases=40000, shards=8, extra=[dict(test="TestC09Exhaustive", shards=8)]), dict(cases=150000, shards=16, timeout_s=3000, extra=[dict(test="TestC09Exhaustive", shards=16, timeout_s=3000)]),
     "cases as C01 with values always supplied, all modes, fresh/reloaded; every retained key is a query; non-trivial = >= 3 retained keys on a trie with a 257-bit node, a short node or a prefix key",
     "Generated-input search: Search(k) for every retained key k must return (value of previous retained key | nil, own value, value of next retained key | nil).",
     "Trusted: reference model.", RAPID, "DESIGN.md §4 C09")
 
 add("C10", "TestC10", "exploration",
-    dict(cases=12000, shards=8), dict(cases=120000, shards=16, timeout_s=3000, fuzz=dict(target="FuzzC10", seconds=240)),
+    dict(cases=12000, shards=8, extra=[dict(test="TestC10Exhaustive", shards=8)]), dict(cases=120000, shards=16, timeout_s=3000, extra=[dict(test="TestC10Exhaustive", shards=16, timeout_s=3000)], fuzz=dict(target="FuzzC10", seconds=240)),
     "cases as C01 (all modes, nil values, empty and single-key tries, fresh/reloaded) queried with Q(keys) plus 64 KiB strings of 0x00/0xff and a 70 000 byte string; non-trivial = a false positive was observed or an absent query shares a prefix with a retained key",
     "Generated-input search over relations that need no per-mode expectation: no panic; Get.found <=> GetID>=0 <=> Search.eq != nil; Get.found => RangeGet.found with the same value; every returned value was supplied at build time.",
     "Trusted: harness bookkeeping of supplied values. Non-termination is only detected through the test deadline (reported as inconclusive, exit 2).",
     RAPID.replace("against a sorted-map reference model", "with relational oracles") + " (+ native go fuzzing in thorough)", "DESIGN.md §4 C10")
 
 add("C13", "TestC13", "exploration",
-    dict(cases=8000, shards=8), dict(cases=60000, shards=16, timeout_s=3000),
+    dict(cases=8000, shards=8, extra=[dict(test="TestC13Exhaustive", shards=8)]), dict(cases=60000, shards=16, timeout_s=3000, extra=[dict(test="TestC13Exhaustive", shards=16, timeout_s=3000)]),
     "one (keys, values, dedup) input built in four information levels (filter, inner, leaf, complete; alternative spellings of the options drawn), queried with retained keys and Q(keys); non-trivial = some query found in a weaker mode and rejected in a stronger one",
     "Metamorphic: found in a mode storing more information implies found with the same value in every mode storing less; Complete finds exactly the retained keys; all modes agree on retained keys.",
     "Trusted: reference model for the retained-key set.", "metamorphic property-based testing (rapid)", "DESIGN.md §4 C13")
@@ -62,7 +62,7 @@ add("C14", "TestC14", "exploration",
     "Trusted: reference model.", "differential property-based testing (rapid)", "DESIGN.md §4 C14")
 
 add("C18", "TestC18", "exploration",
-    dict(cases=24000, shards=8), dict(cases=150000, shards=16, timeout_s=3000),
+    dict(cases=24000, shards=8, extra=[dict(test="TestC18Exhaustive", shards=8)]), dict(cases=150000, shards=16, timeout_s=3000, extra=[dict(test="TestC18Exhaustive", shards=16, timeout_s=3000)]),
     "cases as C01 plus tries loaded from generated legacy streams (8 layouts); non-trivial = >= 4 levels and a leaf above the last level",
     "Generated-input search: KeyCnt equals the model's retained-key count; per-level totals are consistent and monotone; (0,0)/(1,1) for empty/single; Stat unchanged by a round trip; KeyCnt preserved by legacy streams; cross-check: String() renders NodeCnt lines.",
     "Trusted: reference model; legacy writers (validated byte-for-byte against the archived fixtures).", RAPID, "DESIGN.md §4 C18")
